@@ -284,15 +284,13 @@ pub fn explore(check: &'static dyn Check, seed: u64, tier: Tier, verif_dir: &str
     let nworkers = workers();
     // determinism self-check: the same 256 cases, once on one thread and once on all of them
     let self_n = 256u64.min(total as u64);
-    let d1 = digest_of(check, seed, tier, self_n, 1);
-    let d2 = digest_of(check, seed, tier, self_n, nworkers);
-    if d1 != d2 {
-        eprintln!(
-            "harness error: determinism self-check failed for {} (seed {}): {:016x} vs {:016x}",
-            check.id(), seed, d1, d2
-        );
-        return RunReport { exit_code: 2 };
-    }
+    let inflight = Inflight::open(verif_dir, check.id());
+    let d1 = digest_of(check, seed, tier, self_n, 1, Some(&inflight));
+    let d2 = digest_of(check, seed, tier, self_n, nworkers, Some(&inflight));
+    // A mismatch is a harness error only if the exploration then finds nothing: code under test
+    // whose behaviour depends on what ran earlier on a thread (e.g. colliding variable ids) makes
+    // runs differ too, and then the violation is what must be reported.
+    let self_check_ok = d1 == d2;
     let chunk = 4096usize;
     let next = Arc::new(AtomicUsize::new(0));
     let stop = Arc::new(AtomicBool::new(false));
@@ -307,6 +305,7 @@ pub fn explore(check: &'static dyn Check, seed: u64, tier: Tier, verif_dir: &str
             let next = next.clone();
             let agg = agg.clone();
             let stop = stop.clone();
+            let slot = inflight.slot(_w);
             let h = std::thread::Builder::new()
                 .stack_size(STACK)
                 .spawn(move || {
@@ -316,10 +315,12 @@ pub fn explore(check: &'static dyn Check, seed: u64, tier: Tier, verif_dir: &str
                         if i >= chunk_end || stop.load(Ordering::Relaxed) {
                             break;
                         }
+                        slot.set(i as u64);
                         let case = check.generate(seed, i as u64, tier);
                         let res = check.run(&case);
                         local.add(i as u64, &case, &res, i < 64);
                     }
+                    slot.set(u64::MAX);
                     agg.lock().unwrap().merge(local);
                 })
                 .unwrap();
@@ -390,12 +391,28 @@ pub fn explore(check: &'static dyn Check, seed: u64, tier: Tier, verif_dir: &str
 
     // Report violations: minimise, drop those that fall into a known class, write replay files.
     let mut reported = 0;
+    let mut not_reproducible = 0u32;
     let mut seen_classes: HashSet<String> = HashSet::new();
     let violations = std::mem::take(&mut agg.violations);
     let nviol_total = violations.len();
     for (index, case, class, detail) in violations.into_iter().take(24) {
         if seen_classes.contains(&class) && reported >= 1 {
             continue;
+        }
+        // A violation that does not reproduce when its case runs again on a fresh thread depends
+        // on what ran before it in the process (process-global state such as the variable-id
+        // counter): the supervisor then looks for a failing *sequence* of cases instead.
+        if index != u64::MAX {
+            let c = case.clone();
+            let again = on_big_stack(move || check.run(&c).verdict);
+            if !matches!(again, Verdict::Violation { .. }) {
+                not_reproducible += 1;
+                println!(
+                    "note: case {} reported {} but passes when run again in isolation: history-dependent",
+                    index, class
+                );
+                continue;
+            }
         }
         let (min_case, min_class, min_detail) = {
             let c = case.clone();
@@ -485,7 +502,7 @@ pub fn explore(check: &'static dyn Check, seed: u64, tier: Tier, verif_dir: &str
             "known_findings_replayed": known_replayed,
             "fixed_regressions_replayed": fixed_replayed,
             "violations_found_before_minimisation": nviol_total,
-            "determinism_selfcheck": {"cases": self_n, "workers_compared": [1, nworkers], "identical": true, "digest": format!("{:016x}", d1)},
+            "determinism_selfcheck": {"cases": self_n, "workers_compared": [1, nworkers], "identical": self_check_ok, "digest": format!("{:016x}", d1)},
         },
         "assumptions": [
             "the reference models/oracles in /verif/sim/src are correct (they are small and share no code with proto-vulcan)",
@@ -526,7 +543,163 @@ pub fn explore(check: &'static dyn Check, seed: u64, tier: Tier, verif_dir: &str
         reported,
         wall
     );
+    if exit_code == 0 && not_reproducible > 0 {
+        // tell the supervisor to search for a failing sequence of cases
+        return RunReport { exit_code: 3 };
+    }
+    if exit_code == 0 && !self_check_ok {
+        eprintln!(
+            "harness error: determinism self-check failed for {} (seed {}): {:016x} vs {:016x}, and no violation explains it",
+            check.id(), seed, d1, d2
+        );
+        return RunReport { exit_code: 2 };
+    }
     RunReport { exit_code }
+}
+
+// ---------------------------------------------------------------------------------------------
+// In-flight bookkeeping for the supervisor (see main.rs): which case each worker is running.
+
+pub fn inflight_path(verif_dir: &str, id: &str) -> String {
+    format!("{}/target/inflight-{}.bin", verif_dir, id)
+}
+
+pub struct Inflight {
+    file: Option<Arc<std::fs::File>>,
+}
+
+pub struct Slot {
+    file: Option<Arc<std::fs::File>>,
+    offset: u64,
+}
+
+impl Inflight {
+    pub fn open(verif_dir: &str, id: &str) -> Inflight {
+        let _ = std::fs::create_dir_all(format!("{}/target", verif_dir));
+        let file = std::fs::OpenOptions::new()
+            .create(true)
+            .write(true)
+            .open(inflight_path(verif_dir, id))
+            .ok()
+            .map(Arc::new);
+        Inflight { file }
+    }
+
+    pub fn slot(&self, worker: usize) -> Slot {
+        Slot { file: self.file.clone(), offset: 8 * worker as u64 }
+    }
+}
+
+impl Slot {
+    pub fn set(&self, index: u64) {
+        use std::os::unix::fs::FileExt;
+        if let Some(f) = &self.file {
+            let _ = f.write_at(&index.to_le_bytes(), self.offset);
+        }
+    }
+}
+
+/// The case indices that were being run when the process died.
+pub fn read_inflight(path: &str) -> Vec<u64> {
+    let mut out = vec![];
+    if let Ok(bytes) = std::fs::read(path) {
+        for chunk in bytes.chunks(8) {
+            if chunk.len() == 8 {
+                let mut b = [0u8; 8];
+                b.copy_from_slice(chunk);
+                let v = u64::from_le_bytes(b);
+                if v != u64::MAX && !out.contains(&v) {
+                    out.push(v);
+                }
+            }
+        }
+    }
+    out.sort();
+    out
+}
+
+pub fn write_crash_replay(
+    check: &'static dyn Check,
+    verif_dir: &str,
+    seed: u64,
+    index: u64,
+    case: &Case,
+    how: &str,
+) -> String {
+    let dir = format!("{}/replays/{}", verif_dir, check.id());
+    let _ = std::fs::create_dir_all(&dir);
+    let path = format!("{}/crash-{}-{}.json", dir, seed, index);
+    let doc = json!({
+        "property": check.id(),
+        "violation_class": format!("crash ({})", how),
+        "detail": "the process running this case dies (stack overflow, abort or double panic); not minimised",
+        "seed": seed,
+        "case_index": index,
+        "program_text": crate::show::program(&case.program),
+        "case": serde_json::to_value(case).unwrap(),
+    });
+    let _ = std::fs::write(&path, serde_json::to_string_pretty(&doc).unwrap());
+    path
+}
+
+/// Run cases first..=last one after the other on the calling thread. Exit code 1 and a
+/// `SEQ-VIOLATION` line at the first violation, 0 when all pass or the time cap is reached.
+pub fn run_sequence(check: &'static dyn Check, verif_dir: &str, seed: u64, tier: Tier, first: u64, last: u64) -> i32 {
+    let inflight = Inflight::open(verif_dir, &format!("{}-seq", check.id()));
+    let slot = inflight.slot(0);
+    let started = Instant::now();
+    let cap: u64 = std::env::var("PVSIM_SEQ_BUDGET_S").ok().and_then(|s| s.parse().ok()).unwrap_or(180);
+    for i in first..=last {
+        slot.set(i);
+        let case = check.generate(seed, i, tier);
+        if let Verdict::Violation { class, detail } = check.run(&case).verdict {
+            // only the last case of a replayed sequence counts; earlier ones are reported too,
+            // the supervisor shortens the sequence to the first failure
+            println!("SEQ-VIOLATION index={} {}: {}", i, class, detail.lines().next().unwrap_or(""));
+            return 1;
+        }
+        if started.elapsed().as_secs() > cap {
+            println!("SEQ-TIMEOUT index={}", i);
+            break;
+        }
+    }
+    slot.set(u64::MAX);
+    0
+}
+
+pub fn write_sequence_replay(
+    check: &'static dyn Check,
+    verif_dir: &str,
+    seed: u64,
+    tier: &str,
+    first: u64,
+    last: u64,
+    what: &str,
+) -> String {
+    let dir = format!("{}/replays/{}", verif_dir, check.id());
+    let _ = std::fs::create_dir_all(&dir);
+    let path = format!("{}/sequence-{}-{}-{}.json", dir, seed, first, last);
+    let doc = json!({
+        "property": check.id(),
+        "violation_class": format!("history-dependent failure: {}", what),
+        "detail": "the generated cases first..=last of this seed, run one after the other on one thread of a fresh process, fail at the last one",
+        "sequence": {"seed": seed, "tier": tier, "first": first, "last": last},
+    });
+    let _ = std::fs::write(&path, serde_json::to_string_pretty(&doc).unwrap());
+    path
+}
+
+/// (seed, tier, first, last) of a sequence replay file.
+pub fn load_sequence(path: &str) -> Option<(u64, String, u64, u64)> {
+    let text = std::fs::read_to_string(path).ok()?;
+    let v: Value = serde_json::from_str(&text).ok()?;
+    let s = v.get("sequence")?;
+    Some((
+        s["seed"].as_u64()?,
+        s["tier"].as_str()?.to_string(),
+        s["first"].as_u64()?,
+        s["last"].as_u64()?,
+    ))
 }
 
 pub fn load_case(path: &str) -> Result<Case, String> {
@@ -604,31 +777,122 @@ pub fn minimise(
             }
         }
     }
+    // Schedule minimisation: when the case runs under exactly one driver, replace the seeded
+    // policy by the explicit list of decisions it took, then turn decisions back into "insertion
+    // order" / "no yield" one by one, so that the replay file names the reorders and yields the
+    // violation actually needs.
+    if !best.cfg.is_exact() && best.cfg.explicit_orders.is_none() {
+        let still = |c: &Case| matches!(check.run(c).verdict, Verdict::Violation { class: ref c2, .. } if *c2 == class);
+        crate::driver::set_record_all(true);
+        let _ = check.run(&best);
+        let traces = crate::driver::take_traces();
+        crate::driver::set_record_all(false);
+        if traces.len() == 1 {
+            let (orders, yields) = traces.into_iter().next().unwrap();
+            let mut explicit = best.clone();
+            explicit.cfg.explicit_orders = Some(orders);
+            explicit.cfg.explicit_yields = Some(yields);
+            if still(&explicit) {
+                best = explicit;
+                // yields first (cheap), then reorders; coarse to fine
+                let mut ys = best.cfg.explicit_yields.clone().unwrap_or_default();
+                let mut width = ys.len().max(1);
+                while width >= 1 && Instant::now() < deadline {
+                    let mut i = 0;
+                    while i < ys.len() && Instant::now() < deadline {
+                        let mut cand_ys = ys.clone();
+                        let end = (i + width).min(cand_ys.len());
+                        cand_ys.drain(i..end);
+                        let mut cand = best.clone();
+                        cand.cfg.explicit_yields = Some(cand_ys.clone());
+                        if still(&cand) {
+                            ys = cand_ys;
+                            best = cand;
+                        } else {
+                            i += width;
+                        }
+                    }
+                    if width == 1 {
+                        break;
+                    }
+                    width /= 2;
+                }
+                let mut os = best.cfg.explicit_orders.clone().unwrap_or_default();
+                let positions: Vec<usize> = os.iter().enumerate().filter(|(_, o)| o.is_some()).map(|(i, _)| i).collect();
+                let mut width = positions.len().max(1);
+                while width >= 1 && Instant::now() < deadline {
+                    let live: Vec<usize> =
+                        os.iter().enumerate().filter(|(_, o)| o.is_some()).map(|(i, _)| i).collect();
+                    let mut k = 0;
+                    while k < live.len() && Instant::now() < deadline {
+                        let mut cand_os = os.clone();
+                        for p in live[k..(k + width).min(live.len())].iter() {
+                            cand_os[*p] = None;
+                        }
+                        let mut cand = best.clone();
+                        cand.cfg.explicit_orders = Some(cand_os.clone());
+                        if still(&cand) {
+                            os = cand_os;
+                            best = cand;
+                        }
+                        k += width;
+                    }
+                    if width == 1 {
+                        break;
+                    }
+                    width /= 2;
+                }
+                // drop the trailing identity decisions: shorter file, same meaning
+                if let Some(v) = best.cfg.explicit_orders.as_mut() {
+                    while matches!(v.last(), Some(None)) {
+                        v.pop();
+                    }
+                }
+                if let Verdict::Violation { detail, .. } = check.run(&best).verdict {
+                    best_detail = detail;
+                }
+            }
+        }
+    }
     (best, class, best_detail)
 }
 
 /// Print a digest of the first `n` cases' event logs (verdict, trace hash, step counts, answers
 /// compared). Two processes given the same seed must print the same digest.
 pub fn determinism_digest(check: &'static dyn Check, seed: u64, tier: Tier, n: u64) {
-    let digest = digest_of(check, seed, tier, n, workers());
+    let digest = digest_of(check, seed, tier, n, workers(), None);
     println!("DIGEST check={} seed={} cases={} digest={:016x}", check.id(), seed, n, digest);
 }
 
 /// Digest of the event logs of the first `n` cases, computed with `nworkers` threads.
-pub fn digest_of(check: &'static dyn Check, seed: u64, tier: Tier, n: u64, nworkers: usize) -> u64 {
+pub fn digest_of(
+    check: &'static dyn Check,
+    seed: u64,
+    tier: Tier,
+    n: u64,
+    nworkers: usize,
+    inflight: Option<&Inflight>,
+) -> u64 {
     let next = Arc::new(AtomicUsize::new(0));
     let out: Arc<Mutex<Vec<(u64, u64)>>> = Arc::new(Mutex::new(vec![]));
     let mut handles = vec![];
-    for _ in 0..nworkers {
+    for w in 0..nworkers {
         let next = next.clone();
         let out = out.clone();
+        let slot = inflight.map(|f| f.slot(w));
         handles.push(
             std::thread::Builder::new()
                 .stack_size(STACK)
                 .spawn(move || loop {
                     let i = next.fetch_add(1, Ordering::SeqCst) as u64;
                     if i >= n {
+                        if let Some(s) = &slot {
+                            s.set(u64::MAX);
+                        }
                         break;
+                    }
+                    if let Some(s) = &slot {
+                        s.set(i);
                     }
                     let case = check.generate(seed, i, tier);
                     let res = check.run(&case);
